@@ -123,17 +123,24 @@ def reply (toks : List String) : String :=
     | _, _ => "bad-request"
   | _ => "bad-request"
 
-partial def loop (inp : IO.FS.Stream) (out : IO.FS.Stream) : IO Unit := do
+partial def loop (inp : IO.FS.Stream) (out : IO.FS.Stream) (st : Session.State) : IO Unit := do
   let line ← inp.getLine
   if line.isEmpty then return ()
   let toks := (line.trimAscii.toString.splitOn " ").filter (· ≠ "")
   if toks.isEmpty then
     out.putStrLn ""
+    loop inp out st
   else if (toks.headD "").startsWith "@" then
     out.putStrLn "@"        -- oracle-only request: executed on the real crate only
+    loop inp out st
   else
-    out.putStrLn (reply toks)
-  loop inp out
+    match Session.step st toks with
+    | some (st', r) =>
+      out.putStrLn r
+      loop inp out st'
+    | none =>
+      out.putStrLn (reply toks)
+      loop inp out st
 
 def parseProfile : List String → Profile
   | "--profile" :: "release" :: _ => Profile.release
@@ -141,8 +148,8 @@ def parseProfile : List String → Profile
   | [] => Profile.dev
 
 def main (args : List String) : IO Unit := do
-  let _prof := parseProfile args
+  let prof := parseProfile args
   let inp ← IO.getStdin
   let out ← IO.getStdout
-  loop inp out
+  loop inp out ⟨prof, none⟩
   out.flush
